@@ -383,8 +383,19 @@ structure XrefSection where
 
 abbrev XrefTable := List (Int × XrefSection)
 
+/-- Follow one trailer entry (`XRefStm` or `Prev`): absent → nothing; else `int_value` and recurse. -/
+def followRef (strict : Bool) (g : Graph) (next : Int → List Int → Except Err (List Int × List Int))
+    (v : Option Obj) (visited : List Int) : Except Err (List Int × List Int) :=
+  match v with
+  | none => .ok ([], visited)
+  | some o =>
+    match intValue strict g o with
+    | .error e => .error e
+    | .ok i => next (intOf i) visited
+
 /-- Returns the positions loaded, in order, and the visited set.  A negative position is rejected with
-PDFNoValidXRef (in the pinned code `seek` raised ValueError there; fixed in the repo). -/
+PDFNoValidXRef (in the pinned code `seek` raised ValueError there; fixed in the repo).
+`fuel` bounds the recursion depth. -/
 def readXrefFuel (strict : Bool) (g : Graph) (t : XrefTable) : Nat → Int → List Int →
     Except Err (List Int × List Int)
   | 0, _, _ => .error .fuel
@@ -394,19 +405,13 @@ def readXrefFuel (strict : Bool) (g : Graph) (t : XrefTable) : Nat → Int → L
     else
       match t.lookup pos with
       | none => .error .pdfNoValidXRef
-      | some sec => do
-        let visited := pos :: visited
-        let (l1, visited) ← (match sec.xrefstm with
-          | none => (pure ([], visited) : Except Err (List Int × List Int))
-          | some v => do
-            let p := intOf (← intValue strict g v)
-            readXrefFuel strict g t fuel p visited)
-        let (l2, visited) ← (match sec.prev with
-          | none => (pure ([], visited) : Except Err (List Int × List Int))
-          | some v => do
-            let p := intOf (← intValue strict g v)
-            readXrefFuel strict g t fuel p visited)
-        pure (pos :: l1 ++ l2, visited)
+      | some sec =>
+        match followRef strict g (readXrefFuel strict g t fuel) sec.xrefstm (pos :: visited) with
+        | .error e => .error e
+        | .ok (l1, v1) =>
+          match followRef strict g (readXrefFuel strict g t fuel) sec.prev v1 with
+          | .error e => .error e
+          | .ok (l2, v2) => .ok (pos :: l1 ++ l2, v2)
 
 def readXref (strict : Bool) (g : Graph) (t : XrefTable) (start : Int) : Except Err (List Int) := do
   let (l, _) ← readXrefFuel strict g t (t.length + 1) start []
